@@ -9,3 +9,5 @@ import QExPy.Props.C03
 #print axioms QExPy.C03_log_base
 #print axioms QExPy.C03_deg_eval
 #print axioms QExPy.C03_deg_arg
+#print axioms QExPy.C03_sind
+#print axioms QExPy.C03_sind_value
